@@ -70,6 +70,12 @@ def world():
         r"^<Arc as Deref>::deref$": m_deref_arc, r"f64::from_bits$": models.m_identity,
         r"as Clone>::clone$|as ToOwned>::to_owned$": lambda eng, ctx, f, path, args, dty: MC.deep_copy(ctx, MC.load(eng, ctx, args[0])),
         r"as Iterator>::next$": MS.m_next, r"as IntoIterator>::into_iter$": MC.m_into_iter,
+        r"^Vec::new$|^Vec::with_capacity$": lambda *a: MS.lvec(()),
+        r"^Vec::push$": lambda eng, ctx, f, path, args, dty: (eng.store_ptr(ctx, args[0], MS.lvec(tuple(MC.load(eng, ctx, args[0]).data) + (args[1],))), UNIT)[1],
+        r"^Vec::extend_from_slice$": lambda eng, ctx, f, path, args, dty: (eng.store_ptr(ctx, args[0], MS.lvec(tuple(MC.load(eng, ctx, args[0]).data) + tuple(MC.load(eng, ctx, args[1]).data))), UNIT)[1],
+        r"^<Vec as Deref>::deref$|^Vec::as_slice$": lambda eng, ctx, f, path, args, dty: MC.load(eng, ctx, args[0]),
+        r"^Vec::is_empty$": lambda eng, ctx, f, path, args, dty: z3.BoolVal(len(MC.load(eng, ctx, args[0]).data) == 0),
+        r"^Vec::len$": lambda eng, ctx, f, path, args, dty: bv(len(MC.load(eng, ctx, args[0]).data)),
     })
     m.update(models.BASE)
     return P, m, name_of, labels_of
@@ -218,9 +224,70 @@ def scen_descriptions(e3):
     run_history(e3, "c07_first_description_wins", steps, expect)
 
 
+def scen_global_labels(e3):
+    """PrometheusBuilder::add_global_label stores the label under the name it was given (key_to_parts matches key labels against
+    global labels by that raw name: C08 checks that a key label of the same raw name replaces the global one)"""
+    P, m, name_of, labels_of = world()
+
+    def m_get_or_insert_with(eng, ctx, f, path, args, dty):
+        p = args[0]
+        e = eng.load_ptr(ctx, p)
+        if isinstance(e, Enum) and isinstance(e.discr, int) and e.discr == 0:
+            eng.store_ptr(ctx, p, Enum(1, {1: Agg({0: MC.kmap()})}, "Option"))
+        return Ptr(p.root, p.path + (("variant", "Some"), 0))
+    m = dict(m)
+    m2 = {r"Option::get_or_insert_with$": m_get_or_insert_with, r"as Into>::into$": models.m_identity}
+    m2.update(m)
+    eng = sym.Engine(P, models=m2, loop_bound=4)
+    eng.merging = False
+    b = P.find("PrometheusBuilder", "add_global_label")
+    k1, v1, k2, v2 = (Native("astr", z3.Int(x)) for x in ("name1", "value1", "name2", "value2"))
+    ctx0 = sym.Ctx(eng, 1)
+    builder = Agg({i: Opaque(f"field{i}") for i in range(16)})
+    builder.f[10] = Enum(0, {}, "Option")
+
+    def script():
+        b1 = yield ("call", b, [builder, k1, v1])
+        b2 = yield ("call", b, [b1, k2, v2])
+        gl = b2.f[10]
+        rows = []
+        if isinstance(gl, Enum) and gl.discr == 1:
+            for k, cell in gl.v[1].f[0].data:
+                v = yield ("getstatic", cell)
+                rows.append((k, v))
+        return Native("rows", tuple(rows))
+    leaves = eng.run_script(1, "add_global_label x2", script, ctx0=ctx0)
+    e3.absorb(eng)
+    done = [l for l in leaves if l.status == "done"]
+    other = z3.Or(*[l.taken() for l in leaves if l.status != "done"] or [z3.BoolVal(False)])
+    bad = []
+    for l in done:
+        rows = l.ret.data
+        ok = []
+        try:
+            names = [k.data for k, v in rows]
+            vals = [v.data for k, v in rows]
+            same = k1.data == k2.data
+            if len(rows) == 1:
+                ok = z3.And(same, names[0] == k1.data, vals[0] == v2.data)
+            elif len(rows) == 2:
+                ok = z3.And(z3.Not(same), names[0] == k1.data, vals[0] == v1.data, names[1] == k2.data, vals[1] == v2.data)
+            else:
+                ok = z3.BoolVal(False)
+        except AttributeError:
+            ok = z3.BoolVal(False)
+        bad.append(z3.And(l.taken(), z3.Not(ok)))
+    bounds = f"PrometheusBuilder::add_global_label called twice with symbolic names and values (possibly the same name); {len(done)} paths"
+    specs = [dict(name="c07_global_labels:witness", desc="returns", bounds=bounds, cons=[z3.Or(*[l.taken() for l in done] or [z3.BoolVal(False)])], expect_unsat=False),
+             dict(name="c07_global_labels:returns", desc="panics", bounds=bounds, cons=[other], expect_unsat=True),
+             dict(name="c07_global_labels:stored_under_the_given_name_latest_value_wins", desc="a global label is not stored under exactly the name given (which key labels are matched against), or an earlier value survives a later one",
+                  bounds=bounds, cons=[z3.Or(*bad or [z3.BoolVal(False)])], expect_unsat=True)]
+    check.discharge_many(e3.res, specs, 60)
+
+
 def run(tier, seed, t0):
     e3 = _e3.E3("C07")
-    for nm, fn in (("c07_conservation", scen_conservation), ("c07_first_description_wins", scen_descriptions)):
+    for nm, fn in (("c07_conservation", scen_conservation), ("c07_first_description_wins", scen_descriptions), ("c07_global_labels", scen_global_labels)):
         try:
             fn(e3)
         except sym.Unsupported as ex:
